@@ -268,13 +268,16 @@ def plsr_problems(tier, rng):
         c = dyadic(rng, sx, denom=4, lo=-20, hi=20)
         d = dyadic(rng, (max(m, 1),), denom=4, lo=-20, hi=20)
         perm = list(range(n)); rng.shuffle(perm)
-        probs.append(dict(kind="plsr", X=X, y=Y, Xn=Xn, ncomp=ncomp, c=c, d=d, perm=perm))
+        # mostly converged fits (default n_iter_max = 100, tol = 1e-9); every fourth one is stopped after 1-3 passes
+        # (tol = 0): the statements hold for every number of passes
+        n_iter, tol = (rng.choice([1, 2, 3]), 0.0) if k % 4 == 1 else (100, 1e-9)
+        probs.append(dict(kind="plsr", X=X, y=Y, Xn=Xn, ncomp=ncomp, c=c, d=d, perm=perm, n_iter=n_iter, tol=tol))
     return probs
 
 
-def fit_plsr(X, Y, ncomp):
+def fit_plsr(X, Y, ncomp, n_iter=100, tol=1e-9):
     from tensorly.regression.cp_plsr import CP_PLSR
-    return CP_PLSR(n_components=ncomp, random_state=0).fit(X.copy(), Y.copy())
+    return CP_PLSR(n_components=ncomp, tol=tol, n_iter_max=n_iter, random_state=0).fit(X.copy(), Y.copy())
 
 
 def plsr_wellposed(r):
@@ -297,13 +300,24 @@ def plsr_predicates(p, r):
         nr = np.linalg.norm(np.asarray(f), axis=0)
         if not np.all(np.abs(nr - 1) <= 1e-9):
             bad.append(("C19_plsr_unit_norm", f"loading matrix {k} has column norms {nr.tolist()}"))
+    # transform(X_train, Y_train) also returns the fitted Y scores
+    st, trxy = call(r.transform, X.copy(), Y.copy())
+    if st == "ok" and isinstance(trxy, tuple) and len(trxy) == 2:
+        if not close(trxy[0], T, 1e-8) or not close(trxy[1], np.asarray(r.Y_factors[0]), 1e-8):
+            bad.append(("C19_plsr_transform_train", "transform(X_train, Y_train) != (fitted X scores, fitted Y scores)"))
     st, base = call(r.predict, Xn.copy())
     if st != "ok":
         bad.append(("C19_plsr_predict", f"predict raised after a successful fit: {base}"))
         return bad, False
+    # predictions are made with the exposed weights: scores of the new data times coef_ times the Y loadings, plus the offset
+    st, trn = call(r.transform, Xn.copy())
+    if st == "ok":
+        ref = np.asarray(trn) @ np.asarray(r.coef_) @ np.asarray(r.Y_factors[1]).T + np.asarray(r.Y_mean_)
+        if not close(base, ref, 1e-8):
+            bad.append(("C19_plsr_predict", "predict(X) != transform(X) @ coef_ @ Y_factors[1].T + Y_mean_"))
     # shift invariance
     dd = d if np.ndim(Y) == 2 else d[0]
-    st2, r2 = call(fit_plsr, X + c, Y + dd, p["ncomp"])
+    st2, r2 = call(fit_plsr, X + c, Y + dd, p["ncomp"], p.get("n_iter", 100), p.get("tol", 1e-9))
     comparable = True
     if st2 != "ok":
         bad.append(("C19_plsr_shift", f"fit on shifted data raised: {r2}"))
@@ -318,7 +332,7 @@ def plsr_predicates(p, r):
         if st3 != "ok" or not close(np.asarray(p2) - d, base, RT2):
             bad.append(("C19_plsr_shift", "predict(X + c) - d differs from predict(X) of the unshifted fit"))
     # sample permutation
-    st4, r4 = call(fit_plsr, X[perm], Y[perm], p["ncomp"])
+    st4, r4 = call(fit_plsr, X[perm], Y[perm], p["ncomp"], p.get("n_iter", 100), p.get("tol", 1e-9))
     if st4 != "ok":
         bad.append(("C19_plsr_perm", f"fit on permuted samples raised: {r4}"))
     elif not plsr_wellposed(r4):
@@ -354,10 +368,93 @@ def plsr_cases(p, r):
     return cs
 
 
+# ----------------------------------------------------------------------------- CP_PLSR.fit, whole (fixed pass counts)
+def plsr_fit_problems(tier, rng):
+    """small problems on which the number of passes of the inner iteration is pinned: tol = 0 (never stops early,
+    exactly n_iter_max passes) or tol = 1e300 (stops after the second pass)"""
+    probs = []
+    nfit = 14 if tier == "quick" else 150
+    for k in range(nfit):
+        order = rng.choice([1, 2, 2, 3])
+        sx = tuple(rng.randint(2, 3) for _ in range(order))
+        n = rng.randint(3, 6)
+        m = rng.choice([0, 1, 2, 3])
+        cmax = max(1, min(3, n - 2, int(np.prod(sx)) - 1))
+        ncomp = rng.randint(1, cmax)
+        X = dyadic(rng, (n,) + sx, denom=16, lo=-48, hi=48)
+        B = dyadic(rng, (int(np.prod(sx)), max(m, 1)), denom=4, lo=-8, hi=8)
+        Y = X.reshape(n, -1) @ B + 0.25 * dyadic(rng, (n, max(m, 1)), denom=8, lo=-16, hi=16)
+        if m == 0:
+            Y = Y[:, 0]
+        if k % 4 == 3:
+            tol, n_iter = 1e300, rng.choice([2, 5, 50])
+        else:
+            tol, n_iter = 0.0, rng.choice([1, 1, 2, 3, 4] if tier == "quick" else [1, 1, 2, 3, 4, 8, 30])
+        probs.append(dict(kind="plsr_fit", X=X, y=Y, ncomp=ncomp, n_iter=n_iter, tol=tol))
+    return probs
+
+
+def fit_plsr_opts(X, Y, ncomp, n_iter, tol):
+    from tensorly.regression.cp_plsr import CP_PLSR
+    return CP_PLSR(n_components=ncomp, tol=tol, n_iter_max=n_iter, random_state=0).fit(X.copy(), Y.copy())
+
+
+def plsr_fit_case(p):
+    """-> (status, coq case or None).  The answers of the two black boxes of the model are recorded from the
+    implementation: lstsq's from coef_, initialize_cp's by calling it on the Z of every component (Z recomputed
+    from the exposed factors with the deflation formula of the source)."""
+    from tensorly.decomposition._cp import initialize_cp
+    X, Y, ncomp = p["X"], p["y"], p["ncomp"]
+    st, r = call(fit_plsr_opts, X, Y, ncomp, p["n_iter"], p["tol"])
+    if st != "ok":
+        return "fit-raised", None
+    if not plsr_wellposed(r):
+        return "ill-conditioned", None
+    Xf = [np.asarray(f, dtype=np.float64) for f in r.X_factors]
+    Yf = [np.asarray(f, dtype=np.float64) for f in r.Y_factors]
+    coef = np.asarray(r.coef_, dtype=np.float64)
+    Y2 = Y.reshape(-1, 1) if Y.ndim == 1 else Y
+    Xc = X - np.mean(X, axis=0)
+    Yc = Y2 - np.mean(Y2, axis=0)
+    itape, gaps = [], []
+    for c in range(ncomp):
+        Z = np.tensordot(Xc, Yc[:, 0], axes=((0,), (0,)))
+        if np.linalg.norm(Z) < 1e-6:
+            return "ill-conditioned", None
+        if Z.ndim >= 2:
+            # the answer of the SVD initialisation is only well determined when the leading singular value of every
+            # unfolding is separated
+            for k in range(Z.ndim):
+                sv = np.linalg.svd(np.moveaxis(Z, k, 0).reshape(Z.shape[k], -1), compute_uv=False)
+                if len(sv) > 1 and (sv[0] - sv[1]) < 1e-3 * sv[0]:
+                    return "ill-conditioned", None
+        st2, kt = call(initialize_cp, Z.copy(), 1, normalize_factors=True)
+        if st2 != "ok":
+            return "init-raised", None
+        ans = [np.asarray(f, dtype=np.float64).reshape(-1) for f in kt.factors]
+        itape.append(f"({qt(Z)}, {lst(qt(a) for a in ans)})")
+        t = Xf[0][:, c]
+        outer = t
+        for f in Xf[1:]:
+            outer = np.multiply.outer(outer, f[:, c])
+        Xc = Xc - outer
+        Yc = Yc - np.outer(Xf[0][:, :c + 1] @ coef[:c + 1, c], Yf[1][:, c])
+    btape = lst(C.q_list(coef[:c + 1, c].tolist()) for c in range(ncomp))
+    e_loads = lst(lst(qt(f[:, c]) for f in Xf[1:]) for c in range(ncomp))
+    e_scores = lst(C.q_list(Xf[0][:, c].tolist()) for c in range(ncomp))
+    e_yloads = lst(qt(Yf[1][:, c]) for c in range(ncomp))
+    e_yscores = lst(C.q_list(Yf[0][:, c].tolist()) for c in range(ncomp))
+    case = (f"KPlsrFit {C.nat(p['n_iter'])} {C.nat(ncomp)} {C.q(min(p['tol'], 1e30))} {lst(itape)} {btape} {qt(X)} {qt(Y2)} "
+            f"{e_loads} {e_scores} {e_yloads} {e_yscores}")
+    return "ok", case
+
+
 # ----------------------------------------------------------------------------- driver
 def describe(p):
     d = {k: v for k, v in p.items() if k not in ("X", "y", "Xn", "c", "d")}
-    d["X"] = p["X"]; d["y"] = p["y"]; d["Xn"] = p["Xn"]
+    d["X"] = p["X"]; d["y"] = p["y"]
+    if "Xn" in p:
+        d["Xn"] = p["Xn"]
     if "c" in p:
         d["c"] = p["c"]; d["d"] = p["d"]
     d["X_shape"] = list(p["X"].shape); d["y_shape"] = list(np.shape(p["y"]))
@@ -375,7 +472,7 @@ def eval_problem(p):
         if not finite_ok(*arrs):
             return "non-finite", [], [], True
         return "ok", reg_predicates(p, r), reg_cases(p, r, 0), True
-    st, r = call(fit_plsr, p["X"], p["y"], p["ncomp"])
+    st, r = call(fit_plsr, p["X"], p["y"], p["ncomp"], p.get("n_iter", 100), p.get("tol", 1e-9))
     if st != "ok":
         return "fit-raised", [], [], True
     if not plsr_wellposed(r):
@@ -438,7 +535,22 @@ def run(chk):
                             "predict != contraction of each sample with the weights over the non-sample modes (exact, integers)", "C19_predict_is_contraction")
     # 2. fitted regressors and PLSR
     problems = load_corpus() + reg_problems(chk.tier, rng) + plsr_problems(chk.tier, rng)
+    fit_problems = plsr_fit_problems(chk.tier, rng)
     skipped = 0
+    for p in fit_problems:
+        try:
+            status, c = plsr_fit_case(p)
+        except Skip:
+            status, c = "timeout-skipped", None
+        chk.hist("fit_status_plsr_fit", status)
+        if c is None:
+            skipped += 1
+            continue
+        cases.append(f"({len(cases)}%nat, {c})")
+        meta.append({"kind": "plsr_fit", "case": "KPlsrFit", "X_shape": list(p["X"].shape), "y_shape": list(np.shape(p["y"])),
+                     "params": {k: p[k] for k in ("ncomp", "n_iter", "tol")}, "problem": describe(p)})
+        chk.count(key=("plsr_fit", p["X"].shape, np.shape(p["y"]), p["ncomp"], p["n_iter"], p["tol"]), nontrivial=True)
+        chk.hist("case", "KPlsrFit"); chk.hist("plsr_fit_passes", f"n_iter_max={p['n_iter']} tol={p['tol']}")
     for p in problems:
         try:
             status, bad, cs, comparable = eval_problem(p)
@@ -459,9 +571,16 @@ def run(chk):
         for c in cs:
             cases.append(f"({len(cases)}%nat, {c})")
             meta.append({"kind": p["kind"], "case": c.split(" ", 1)[0], "X_shape": list(p["X"].shape), "y_shape": list(np.shape(p["y"])),
-                         "params": {k: v for k, v in p.items() if k in ("rank", "reg", "seed", "n_iter", "ncomp")}, "problem": describe(p)})
+                         "params": {k: v for k, v in p.items() if k in ("rank", "reg", "seed", "n_iter", "ncomp", "tol")}, "problem": describe(p)})
             chk.count(n=1); chk.hist("case", c.split(" ", 1)[0])
-    failing, n_eval, broken = C.run_case_shards("C19", HEADER, "case", cases, shard=(24 if chk.tier == "quick" else 60))
+    # the generators construct well-posed problems: if most of them do not yield a usable fit the check would be vacuous
+    for kind in ("cp", "tucker", "plsr", "plsr_fit"):
+        h = chk.cov["histograms"].get("fit_status_" + kind, {})
+        tried = sum(v for k, v in h.items() if k != "timeout-skipped")
+        if tried >= 4 and 2 * h.get("ok", 0) < tried:
+            chk.broken.append({"what": f"correspondence corr:C19 not exercised: only {h.get('ok', 0)} of {tried} well-posed {kind} problems gave a finite, well-conditioned fit",
+                               "detail": h})
+    failing, n_eval, broken = C.run_case_shards("C19", HEADER, "case", cases, shard=(24 if chk.tier == "quick" else 40), timeout=3000)
     chk.checker_cmds.append("coqc (vm_compute) on generated build/cases/C19/*.v: Corr.C19.failing")
     chk.cov["traces_validated_against_impl"] = n_eval
     chk.cov["skipped_ill_conditioned_or_failed_fits"] = skipped
@@ -469,7 +588,10 @@ def run(chk):
     chk.cov["rule"] = ("predict on injected integer weights: every per-sample shape of order 1-3 over mode sizes {1,2,3} x output shapes (), (1), (2), (3), (2,2), (1,3), (3,2) "
                        "(quick: half of the order-3 ones) + flattened weights + mis-shaped requests, exact in Z; "
                        "random regression problems (samples 2-8, per-sample order 1-3, scalar / vector / matrix targets for CP, scalar for Tucker, ranks 1-3, reg_W in {0.01..10}, "
-                       "1-25 sweeps, seeds) and CP_PLSR problems (samples 2-8, per-sample order 1-3, 1-D and 1-3 column Y, 1-3 components): fitted attributes -> model in Q vs implementation (1e-9); "
+                       "1-25 sweeps, seeds): fitted attributes -> model in Q vs implementation (1e-9); CP_PLSR problems (samples 2-8, per-sample order 1-3, 1-D and 1-3 column Y, 1-3 components, "
+                       "converged fits and fits stopped after 1-3 passes): X_mean_, transform, predict from the fitted attributes -> model in 70-bit binary fixed point vs implementation (1e-9); "
+                       "whole CP_PLSR.fit with pinned pass counts (tol=0: n_iter_max in 1-4 resp. up to 30 in thorough; tol=1e300: stops after pass 2), samples 3-6, 1-3 components, "
+                       "initialize_cp / lstsq answers recorded from the implementation -> per-component loadings, X/Y scores, Y loadings of the model (fixed point) vs implementation (1e-8); "
                        "a case is non-trivial if the fit succeeded with finite weights; distinct key = (regressor, X shape, y shape, rank)")
     for b in broken:
         chk.broken.append({"what": "correspondence corr:C19 shard not evaluated", "detail": b})
@@ -480,7 +602,9 @@ def run(chk):
                        "CP_PLSR two-fit comparisons (shift, permutation) only on problems where every component's score vector has norm > 1e-3 (otherwise the normalisations are 0/0)",
                        "size-0 modes are outside the model"]
     chk.trusted = ["cp_to_tensor / tucker_to_tensor / multi_mode_dot / outer are modelled by their entrywise meaning (their code-level models are C02/C03); tied to the code by this run's Q cases",
-                   "CP_PLSR inner power iteration (initialize_cp SVD, normalisations, stopping test) and lstsq are black boxes of the model; shift / permutation invariance of the whole fit is checked by predicates on the implementation"]
+                   "CP_PLSR: the SVD inside initialize_cp (a function of Z), lstsq (modelled as a function of the normal-equation data T'T, T'u: true of the minimum-norm solution in exact arithmetic) and sqrt are black boxes of the model; their answers are recorded from the implementation for execution",
+                   "the ridge block updates of CPRegressor / TuckerRegressor (C07) are an arbitrary function `sweep` in the model of the fit loop; the loop structure itself is not executed against the implementation, its conclusion (stored attributes come from one iterate) is what the predicates test",
+                   "fixed-point execution (70 fractional bits) of the CP_PLSR model: rounding 1e-21 per operation, compared at 1e-9 / 1e-8"]
     return chk.finish({})
 
 
